@@ -347,7 +347,9 @@ Definition trash_single (path : str) (o : put_opts) : prog bool :=
   | ModeInteractive =>
       if acc then
         d <- describe path ;;
-        reply <- call_str (Input (printable ($"trash-put: trash " ++ d ++ $" '" ++ path ++ $"'? "))) ;;
+        (* user.py (fixed): end of input at the prompt is a "no" *)
+        reply <- catch (call_str (Input (printable ($"trash-put: trash " ++ d ++ $" '" ++ path ++ $"'? "))))
+                       (fun e => match e with EOFError => Some (Ret []) | _ => None end) ;;
         if parse_user_reply reply then trash_file path o else Ret true
       else trash_file path o
   | _ => trash_file path o
